@@ -206,6 +206,7 @@ func (x *c20SX) unroll(s ast.Node, body *ast.BlockStmt, a c20V, st *c20St, bind 
 		for _, c := range cur {
 			bind(i, c)
 			for _, o := range x.block(body.List, []*c20St{c}) {
+				x.ownBranch(o, s)
 				switch o.ctl {
 				case c20cRun:
 					next = append(next, o)
